@@ -21,6 +21,15 @@ pairwise disjoint; in every third-core state the sources' lattices are the objec
 the original coordinates. The same ownership structure (objects named by first encounter) and the sampled pin indices
 are compared with Model/Sym3.lean `Sub` after every operation.
 Function level: _scaleBlockVolIntegratedParams on None / list / float / array values vs Model scaleBlockVals.
+Sources rotated before the conversion (Assembly.rotate by 60 degrees x n on a random subset / all assemblies) with
+per-corner / per-edge vectors (lists and arrays) in a random subset of the nine CORNERS / EDGES block parameters on a
+random subset of blocks: every vector of a copy is its source's shifted by the copy's own turn; block orientations and
+boundary vectors are part of the state compared with the model (Sub: orient, bnd).
+Redundant / repeated calls on the same changer objects (phrases: convert twice, restore twice, addEdge twice, removeEdge
+without add, convert-restore-convert-restore, restore with and without the reactor argument): a redundant call leaves
+core and changer bookkeeping (list of parameters to scale, added assemblies - part of the compared state) as they were.
+Cores with zones (40 % of the generated cores): copies belong to the zone of their source; after undoing the zones hold
+what they held (oracle only; the unchanged code fails this: finding restore-leaves-copies-in-zones).
 """
 import copy
 import math
@@ -37,6 +46,7 @@ PARTIAL = ("all theorems listed in DESIGN section 5 C13 are proved, incl. invari
            "the excluded points are run and listed as findings); "
            "mass / volume totals are compared to 1e-9 relative (floats); stored parameters exactly (dyadic values); "
            "lookup tables are derived from the child list in the model (they are explicit state in C14's model); "
+           "zone membership of copies is checked on the real core only (not in the model); "
            "block-internal rotation of boundary parameters is C08's subject; pin sites of copies are modelled at index level "
            "(rotateIndex of the local (i, j); the Euclidean statement is C08 rotateIndex_geom_field) and checked in global "
            "coordinates on the real objects")
@@ -981,7 +991,11 @@ def run_case(ctx, spec, ops, compare=True):
                 elif op == "convert":
                     ch.convert(r)
                 elif op == "restore":
-                    ch.restorePreviousGeometry(r)
+                    # both call forms: with the reactor, and without (the changer remembers the one it converted)
+                    if (spec["vseed"] + k) % 2:
+                        ch.restorePreviousGeometry(r)
+                    else:
+                        ch.restorePreviousGeometry()
                 elif op == "addEdge":
                     ec.addEdgeAssemblies(core)
                 elif op == "removeEdge":
@@ -1283,7 +1297,7 @@ def in_model_domain(spec, ops):
 def run(ctx):
     rng = ctx.rng
     _BASE["thorough"] = bool(ctx.thorough)
-    ncases = ctx.pick(20, 110)
+    ncases = ctx.pick(20, 100)
     plan = []
     # fixed corpus first: the design-round probes and the excluded points
     plan.append(({"rings": 9, "holes": [], "edges0": False, "vseed": 1}, ["convert", "restore"]))
